@@ -1,7 +1,7 @@
 """psv.props — which rules decide which property."""
 from . import core
 from .report import Check
-from .rules import cw, ed, mt, ts, vg, pm, ax, kb, dp, sg, uw, sm, fs, tc, ge, nl, sp
+from .rules import cw, ed, mt, ts, vg, pm, ax, kb, dp, sg, uw, sm, fs, tc, ge, nl, sp, gw, rt
 from . import selftest
 
 
@@ -21,6 +21,8 @@ def c18(tier):
     # the wrappers forward to member functions on tables built by any populating operation: none of them may trip over an array
     # that such a table legitimately lacks (a crash is not a non-zero return)
     nl.nl1(P, C)
+    # 'releases every resource exactly once': the FITS handle of a refused or failed read is closed on every path
+    ed.rh1(P, C)
     C.extra["units"] = sorted(P.units.keys())
     C.extra["functions_analysed"] = len(P.functions)
     return C.finish()
@@ -85,6 +87,7 @@ def c12(tier):
     P = core.load(tier=tier, extra_units=selftest.UNITS)
     selftest.run(P, C, ('mt',))
     mt.run(P, C)
+    mt.mt9(P, C)
     C.extra["units"] = sorted(P.units.keys())
     return C.finish()
 
@@ -106,6 +109,8 @@ def c20(tier):
     ts.run_c20(P, C)
     nl.nl1(P, C)
     nl.nl2(P, C)
+    # a FITS handle opened by a failed operation is closed on every path (all memory *and* handles are returned)
+    ed.rh1(P, C)
     C.extra["units"] = sorted(P.units.keys())
     C.extra["mutators"] = [ts.fshort(f) for f in ts.mutators(P)]
     return C.finish()
@@ -125,6 +130,8 @@ def c13(tier):
     # 'never reads or writes out of bounds', the part visible in the code's shape inside the solver: no stale or released CHOLMOD arrays
     sp.sp1(P, C, floor=3)
     sp.sp2(P, C)
+    # 'completes or throws': every recursion reached from fit bottoms out for every admitted argument (penalty order 0 included)
+    rt.rt1(P, C)
     ts.ts2(P, C, only=("fit",), rule_floor=2)
     ts.ts3(P, C, only=("fit",))
     cw.cw1(P, C, only=("splinetable_glamfit",))
@@ -303,6 +310,8 @@ def c11(tier):
     P = core.load(tier=tier, extra_units=selftest.UNITS)
     selftest.run(P, C, ('sp',))
     sg.run_sign(P, C)
+    # the constrained set handed back to the solver is one job's list of clipped coordinates, not several jobs' concatenated
+    mt.mt9(P, C)
     # anchored in modify_factor / recompute_factor: the factor-update path must not read moved or released CHOLMOD arrays
     sp.sp1(P, C, floor=3)
     sp.sp2(P, C)
@@ -392,7 +401,25 @@ def c17(tier):
     return C.finish()
 
 
-TABLE = {"C17": c17, "C06": c06, "C19": c19, "C14": c14, "C10": c10, "C11": c11, "C03": c03, "C02": c02, "C05": c05, "C04": c04, "C16": c16, "C15": c15, "C18": c18, "C08": c08, "C12": c12, "C20": c20, "C13": c13, "C07": c07}
+def c09(tier):
+    C = Check("C09", tier,
+              explanation="Only the wiring of the penalised least-squares system is decided (one structural clause): which smoothing strength, "
+              "penalty order, spline order and knot vector build each dimension's penalty (GW-1..3), that the penalty is the scaled sum over all "
+              "dimensions of Kronecker-extended D'D blocks of the divided-difference matrix with the right shape (GW-3), that F is built from the "
+              "weights and R from weights*data with dimension i's own basis applied along dimension i, that the solved system is (F + penalty) c = R "
+              "by the Cholesky route when no monotonic dimension is requested, and that every coefficient is copied out (GW-4). What box(), "
+              "slicemultiply(), kronecker_product(), divided_diffs() and the sparse solve compute — i.e. that the result is the minimiser — is "
+              "numerical and is NOT decided.",
+              assumptions=["box, slicemultiply, kronecker_product, divided_diffs, cholesky_solve compute what their names say (not analysed)",
+                           "CHOLMOD's add/ssmult/transpose/speye follow their documentation"])
+    P = core.load(tier=tier, extra_units=selftest.UNITS)
+    gw.run(P, C)
+    C.extra["units"] = sorted(P.units.keys())
+    C.extra["not_decided"] = ["optimality", "polynomial reproduction", "index arithmetic of box/slicemultiply/kronecker_product", "divided_diffs formula"]
+    return C.finish()
+
+
+TABLE = {"C09": c09, "C17": c17, "C06": c06, "C19": c19, "C14": c14, "C10": c10, "C11": c11, "C03": c03, "C02": c02, "C05": c05, "C04": c04, "C16": c16, "C15": c15, "C18": c18, "C08": c08, "C12": c12, "C20": c20, "C13": c13, "C07": c07}
 
 
 def run(prop, tier):
